@@ -333,7 +333,9 @@ def run_property(prop, tier, seed, jobs, write_baseline, t_start):
         model = o.get("model")
         refuted = o["result"] == "sat" and (o["unit_kind"] in ("unroll", "static"))
         witness_rec = o if model is not None else None
-        if o["unit_kind"] == "inv":
+        stored = [k for k in known if k.get("witness") and finding_matches(k, prop, name, None)]
+        if o["unit_kind"] == "inv" and not stored:
+            # (an obligation that matches a recorded finding with a stored failing input needs no search: that input is replayed below)
             # quantified obligation not discharged: look for a function-level counter-example by unrolling
             if o["qual"] not in fallback_cache:
                 fallback_cache[o["qual"]] = fallback_unroll(o["qual"])
